@@ -215,7 +215,7 @@ where
                 scope.spawn(move || {
                     let strat = proptest::collection::vec(proptest::num::u32::ANY, cfg.tape_min..=cfg.tape_max);
                     run_strategy(seed, cfg.cases_per_shard, cfg.shrink_iters, strat, |t: &Vec<u32>, st| check(t, st), |t| {
-                        (json!({ "tape": t }), describe(t))
+                        (json!({ "tape": t, "sub": sub }), describe(t))
                     })
                 })
             })
